@@ -841,7 +841,7 @@ def run(ck, replay):
     ck.cov["trusted_base"] += [
         "fsmdrv (harness/go/main/zz_verif_fsm_test.go): drives the real FSM.Apply/Snapshot/Persist/Restore with real LevelDB stores and a real output stream; start-up sequence of main() re-enacted by the driver (irclog re-opened, tmp-outputstream deleted)",
         "state equality is observed three ways: canonicalised IRCServer.Marshal bytes, the independent field dump of internal/ircserver (harness/go/ircserver/zz_verif_export.go VerifDump: every field of sessions/nick index/channels/holds/config, read by reflection) and behaviour (the tail of every log is applied on the restored node and its reply batches compared with the plain replay's); serialized states (lastSnapshotState, snapshot state message) are judged by what they MEAN when loaded (Unmarshal onto a fresh server, then dump)",
-        "projections: RPL_CREATED (003) text masked in batch digests (ServerCreation is per-process wall clock); recipient sets restricted to sessions {id,0} that exist after the entry in the plain replay (a services link that quit stays in serverSessions until the next save+load: DESIGN D13 / IRCFORMAT E1); Config.WhitelistedOrigins (absent from snapshot.proto, C03's open finding) is only generated once `open: property=C02 sig=c02:field:G.wo` is listed",
+        "projections: RPL_CREATED (003) text masked in batch digests (ServerCreation is per-process wall clock); recipient sets restricted to sessions {id,0} that exist after the entry in the plain replay (a services link that quit stays in serverSessions until the next save+load: DESIGN D13 / IRCFORMAT E1); Config.WhitelistedOrigins is generated in every configuration (part of the snapshot since /repo baa91ab)",
         "hashicorp/raft's contract (Apply in log order on one goroutine; Restore(latest) then exactly the later entries; Persist reads only indexes <= last) is an assumption of the model, not checked",
         "LevelDB (goleveldb) as an ordered key/value store with consistent iterators",
         "the IRC state machine is a black box: the model instance is the digest machine (state = list of applied entries); the hypotheses roundtrip (C03) / exp_frame / exp_init of the abstract theorems are assumptions about it (exp_init checked by source scan)"]
@@ -864,9 +864,9 @@ def run(ck, replay):
     else:
         cases = corpus_cases()
         n = 150 if ck.tier == "quick" else 2400
-        # Config.WhitelistedOrigins is absent from snapshot.proto (open finding of C03): a restored node loses it,
-        # which this check would report on every run.  It is generated only once it is listed for C02 as well.
-        allow_wo = any(k["sig"] == "c02:field:G.wo" for k in vlib.known_findings("C02"))
+        # Config.WhitelistedOrigins used to be absent from snapshot.proto (repaired in /repo baa91ab, `fixed:` in
+        # known_findings.txt for C02 and C03): it is always generated, a restored node must keep it.
+        allow_wo = True
         ck.notes["whitelisted_origins_generated"] = allow_wo
         gen = []
         for i in range(n):
